@@ -6,7 +6,11 @@ package main
 // arm of the input loop calls Close, and so does its deferred panic handler. A blocking wait on the shutdown path
 // (a channel receive, a `range` over a channel, a select without default whose every case is such a receive, a
 // WaitGroup.Wait) is only harmless if something else can end it. The rule decides, for every such wait W in a
-// function reachable from Close/Suspend:
+// function reachable from Close/Suspend (for a select inside a loop — a wait loop `for { select { … } }` — only the arms
+// on which the loop is LEFT, i.e. from which the end of the function is reachable without passing the same select
+// again, are what ends the wait; an arm that returns to the select merely SERVES its channel while the wait goes on
+// and is recorded as such; a default arm that returns to the select makes it a polling wait, one that leaves makes
+// it no wait at all):
 //
 //   (1) the waited object (a channel / WaitGroup held in an unexported field, a package variable or a local, with
 //       every alias of it: assignments, struct literals, arguments bound to parameters, results of unexported
@@ -35,6 +39,8 @@ import (
 	"go/types"
 	"sort"
 	"strings"
+
+	"golang.org/x/tools/go/cfg"
 )
 
 func init() { registerExtra("C04", c04NoSelfJoin) }
@@ -46,6 +52,10 @@ type c04jSite struct {
 	ents []types.Object
 	kind string   // "receive", "range", "select", "WaitGroup.Wait" / "close", "send", "Done"
 	loc  ast.Node // node to locate in the CFG
+	// waits: the channel expressions of the receives that end the wait (parallel to ents), and the objects a
+	// wait loop `for { select { … } }` merely serves while it waits
+	recvX  []ast.Expr
+	serves []types.Object
 }
 
 type c04jGo struct {
@@ -360,7 +370,7 @@ func (w *c04jWorld) collectFunc(fi *FuncInfo) {
 			if t.Op == token.ARROW {
 				w.recvs = append(w.recvs, &c04jSite{node: t, anc: snapshot(), fi: fi, ents: []types.Object{o}, kind: "receive", loc: t})
 				if !commRecv[t] {
-					w.waits = append(w.waits, &c04jSite{node: t, anc: snapshot(), fi: fi, ents: []types.Object{o}, kind: "receive", loc: t})
+					w.waits = append(w.waits, &c04jSite{node: t, anc: snapshot(), fi: fi, ents: []types.Object{o}, kind: "receive", loc: t, recvX: []ast.Expr{t.X}})
 				}
 				return
 			}
@@ -587,13 +597,31 @@ func (w *c04jWorld) collectFunc(fi *FuncInfo) {
 		stack = append(stack, n)
 		switch t := n.(type) {
 		case *ast.SelectStmt:
-			blocking := true
-			var ents []types.Object
+			// The arms on which the statement is LEFT for good (control reaches the end of the function without
+			// coming back to this select: return, break out of the loop, code after it) are what ends the wait;
+			// an arm after which control can only return to the same select merely serves its channel while the
+			// wait goes on. Outside a loop every arm is of the first kind.
+			var lit *ast.FuncLit
+			for i := len(stack) - 2; i >= 0 && lit == nil; i-- {
+				lit, _ = stack[i].(*ast.FuncLit)
+			}
+			var g *FG
+			if lit != nil {
+				g = p.GraphOfLit(fi.Pkg, fi.Name+"$lit", lit)
+			} else {
+				g = p.Graph(fi)
+			}
+			leaves := c04jSelectLeaves(g, t)
+			judged := true
+			var ents, serves []types.Object
+			var xs []ast.Expr
 			var first ast.Node
 			for _, cl := range t.Body.List {
 				cc := cl.(*ast.CommClause)
 				if cc.Comm == nil {
-					blocking = false
+					if leaves[cc] {
+						judged = false // a default arm that goes on: the statement does not wait
+					}
 					continue
 				}
 				var u *ast.UnaryExpr
@@ -606,25 +634,29 @@ func (w *c04jWorld) collectFunc(fi *FuncInfo) {
 					}
 				}
 				if u == nil || u.Op != token.ARROW {
-					ents = append(ents, nil) // a send case
+					if leaves[cc] {
+						judged = false // a send arm ends the wait: whoever receives is not modelled
+					}
 					continue
 				}
 				commRecv[u] = true
 				if first == nil {
 					first = cc.Comm
 				}
-				ents = append(ents, w.ent(info, u.X))
-			}
-			all := blocking && len(ents) > 0
-			for _, e := range ents {
-				if e == nil {
-					all = false
+				e := w.ent(info, u.X)
+				switch {
+				case leaves[cc] && e == nil:
+					judged = false // ended by a channel the rule cannot name (time.After, ctx.Done, …)
+				case leaves[cc]:
+					ents = append(ents, e)
+					xs = append(xs, u.X)
+				case e != nil:
+					serves = append(serves, e)
 				}
 			}
-			if all {
+			if judged && len(ents) > 0 {
 				anc := snapshot()
-				w.waits = append(w.waits, &c04jSite{node: t, anc: anc[:len(anc)-1], fi: fi, ents: ents, kind: "select", loc: first})
-				// (anc is fixed up below: all sites keep "ancestors without the node")
+				w.waits = append(w.waits, &c04jSite{node: t, anc: anc[:len(anc)-1], fi: fi, ents: ents, kind: "select", loc: first, recvX: xs, serves: serves})
 			}
 		case *ast.ReturnStmt:
 			if sig, ok := fi.Obj.Type().(*types.Signature); ok && sig.Results().Len() == 1 && c04jSyncType(sig.Results().At(0).Type()) {
@@ -697,6 +729,52 @@ func (w *c04jWorld) collectFunc(fi *FuncInfo) {
 	for _, s := range fi.Decl.Body.List {
 		ast.Inspect(s, visit)
 	}
+}
+
+// c04jSelectLeaves: the clauses of sel from whose body control can reach the end of the function without passing
+// this select again. (go/cfg evaluates all communication statements in the block that heads the select; each
+// clause body is a KindSelectCaseBody block, the default body follows the last KindSelectAfterCase block.)
+// A clause whose block cannot be found counts as leaving.
+func c04jSelectLeaves(g *FG, sel *ast.SelectStmt) map[*ast.CommClause]bool {
+	out := map[*ast.CommClause]bool{}
+	comm := map[ast.Node]bool{}
+	var lastComm *ast.CommClause
+	for _, cl := range sel.Body.List {
+		cc := cl.(*ast.CommClause)
+		if cc.Comm != nil {
+			comm[cc.Comm] = true
+			lastComm = cc
+		}
+	}
+	leavesFrom := func(b *cfg.Block) bool {
+		left := false
+		g.walk(Loc{b, 0}, func(l Loc, n ast.Node) bool {
+			return !comm[n]
+		}, func(*cfg.Block) { left = true })
+		return left
+	}
+	for _, cl := range sel.Body.List {
+		cc := cl.(*ast.CommClause)
+		var start *cfg.Block
+		if g == nil {
+			out[cc] = true
+			continue
+		}
+		for _, b := range g.Blocks {
+			switch {
+			case cc.Comm != nil && b.Kind == cfg.KindSelectCaseBody && b.Stmt == ast.Node(cc):
+				start = b
+			case cc.Comm == nil && lastComm != nil && b.Kind == cfg.KindSelectAfterCase && b.Stmt == ast.Node(lastComm):
+				start = b
+			}
+		}
+		if start == nil {
+			out[cc] = true
+			continue
+		}
+		out[cc] = leavesFrom(start)
+	}
+	return out
 }
 
 // ancestorsOf normalises a site's ancestor list: outermost first, not containing the node itself.
@@ -1258,6 +1336,13 @@ func c04NoSelfJoin(c *Ctx) {
 		why := "no goroutine of the library can arrive at this wait"
 		if len(examined) > 0 {
 			why = strings.Join(examined, "; ")
+		}
+		if len(wt.serves) > 0 {
+			var sv []string
+			for _, e := range wt.serves {
+				sv = append(sv, c04jEntName(e))
+			}
+			why += "; the arms on " + strings.Join(sv, ", ") + " only serve while the wait goes on"
 		}
 		c.ok("C04.i", key, wt.node.Pos(), "woken by %s; %s", strings.Join(ws, ", "), why)
 	}
